@@ -73,6 +73,18 @@ class QueueStorage(object):
         for index in sorted(rcpt_indexes, reverse=True):
             del envelope.recipients[index]
 
+    def _add_delivered_round(self, current, rcpt_indexes):
+        # Indexes are positions in the recipient list as it stands after the
+        # rounds recorded so far; each round is kept highest index first so
+        # that the list can be replayed in order.
+        return list(current) + sorted(rcpt_indexes, reverse=True)
+
+    def _remove_delivered_rounds(self, envelope, delivered_indexes):
+        if isinstance(delivered_indexes, (set, frozenset)):
+            delivered_indexes = sorted(delivered_indexes, reverse=True)
+        for index in delivered_indexes:
+            del envelope.recipients[index]
+
     def write(self, envelope, timestamp):
         """Writes the given envelope to storage, along with the timestamp of
         its next delivery attempt. The number of delivery attempts asociated
